@@ -155,6 +155,7 @@ type c09Enc struct {
 	Len       int    `json:"len"`
 	Content   string `json:"content"` // "zeros", "valid-truncated", "last-byte", "zero-final-block", "ff"
 	LastByte  int    `json:"last_byte"`
+	LastPos   int    `json:"last_pos"`
 	KeyAlg    string `json:"key_alg"`
 	Digest    string `json:"digest"`
 	KeyLen    int    `json:"key_len"`
@@ -213,6 +214,22 @@ func c09Cipher(e c09Enc) (sym []byte, ct []byte) {
 			raw[i] = 'A'
 		}
 		raw[len(raw)-1] = byte(e.LastByte)
+		ct = idp.RawCBC(sym, make([]byte, 16), raw)
+	case "byte-then-zeros":
+		// final plaintext block = LastPos filler bytes, then the byte LastByte, then zero bytes:
+		// every position and value of the last non-zero byte (what remains after zero trimming)
+		if keyLen != 16 && keyLen != 24 && keyLen != 32 {
+			return sym, make([]byte, e.Len)
+		}
+		blocks := e.Len/16 - 1
+		if blocks < 1 {
+			return sym, make([]byte, e.Len)
+		}
+		raw := make([]byte, blocks*16)
+		for i := 0; i < len(raw)-16+e.LastPos; i++ {
+			raw[i] = 'A'
+		}
+		raw[len(raw)-16+e.LastPos] = byte(e.LastByte)
 		ct = idp.RawCBC(sym, make([]byte, 16), raw)
 	case "zero-final-block":
 		if keyLen != 16 && keyLen != 24 && keyLen != 32 {
@@ -318,6 +335,15 @@ func c09EncClass(e c09Enc) string {
 			shape = "iv-only"
 		case e.Content == "zero-final-block" || e.Content == "zeros":
 			shape = e.Content
+		case e.Content == "byte-then-zeros":
+			switch {
+			case e.LastByte == 0:
+				shape = "all-zero-tail"
+			case e.LastByte > (e.Len/16-2)*16+e.LastPos+1:
+				shape = "pad-byte>data-left-after-zero-trimming"
+			default:
+				shape = "pad-byte-in-range-after-zero-trimming"
+			}
 		case e.Content == "last-byte":
 			switch {
 			case e.LastByte == 0:
@@ -537,7 +563,7 @@ func c09Run(r *mc.Run) {
 		bits = []uint{0, 1, 2, 3, 4, 5, 6, 7}
 	}
 	r.Level = "fault_enumeration"
-	r.Rule = "(a) 6 base messages x 3 layers (base64 text, DEFLATE stream, XML bytes): every truncation offset, every single-bit flip (quick: bits 0 and 7 of every byte; thorough: all 8), 12 byte substitutions at every position, each fed to the entry points of its kind under 3 configurations (truncations: to all 6 entry points); (b) unsigned Response + EncryptedAssertion: 8 algorithm identifiers x every ciphertext length 0..64 x content families (zeros, 0xff, valid-truncated, every final plaintext byte 0..255, all-zero final block) with deviation-bounded key-transport / digest / key length / placement / recipient variants, through ValidateEncodedResponse and through DecryptBytes/Decrypt directly; direct DecryptSymmetricKey/DecryptBytes calls with odd certificates; (c) structure extremes in a child process. non-trivial = the input passed base64 decoding (reached XML/DEFLATE processing) or reached the decryption routine; distinct = distinct input"
+	r.Rule = "(a) 6 base messages x 3 layers (base64 text, DEFLATE stream, XML bytes): every truncation offset, every single-bit flip (quick: bits 0 and 7 of every byte; thorough: all 8), 12 byte substitutions at every position, each fed to the entry points of its kind under 3 configurations (truncations: to all 6 entry points); (b) unsigned Response + EncryptedAssertion: 8 algorithm identifiers x every ciphertext length 0..64 x content families (zeros, 0xff, valid-truncated, every final plaintext byte 0..255, every position x value of the last non-zero byte of the final block, all-zero final block) with deviation-bounded key-transport / digest / key length / placement / recipient variants, through ValidateEncodedResponse and through DecryptBytes/Decrypt directly; direct DecryptSymmetricKey/DecryptBytes calls with odd certificates; (c) structure extremes in a child process. non-trivial = the input passed base64 decoding (reached XML/DEFLATE processing) or reached the decryption routine; distinct = distinct input"
 	r.Assume("a Go panic in the callee is observable by recover(); fatal runtime errors are observed as death of a child process")
 
 	// (a)
@@ -615,6 +641,14 @@ func c09Run(r *mc.Run) {
 		for _, ln := range []int{32, 48, 64} {
 			for lb := 0; lb < 256; lb++ {
 				encs = append(encs, c09Enc{DataAlg: alg, Len: ln, Content: "last-byte", LastByte: lb, KeyAlg: idp.OAEPMGF1P, KeyLen: 16})
+				if strings.Contains(alg, "cbc") {
+					for pos := 0; pos < 16; pos++ {
+						if ln != 32 && pos%5 != 0 && !r.Thorough() {
+							continue
+						}
+						encs = append(encs, c09Enc{DataAlg: alg, Len: ln, Content: "byte-then-zeros", LastByte: lb, LastPos: pos, KeyAlg: idp.OAEPMGF1P, KeyLen: 16})
+					}
+				}
 			}
 		}
 	}
